@@ -54,5 +54,5 @@ TRUST_PATTERNS = [
     r"\buninterp\s+spec\s+fn\b",
 ]
 
-VERUS_RLIMIT = 30
+VERUS_RLIMIT = 60
 VERUS_THREADS = 8
